@@ -8,10 +8,11 @@ export GOFLAGS=-mod=mod GOPROXY=off GOSUMDB=off GOTOOLCHAIN=local CGO_ENABLED=1
 export PATH=/opt/veriftools/go1.26.8/bin:$PATH
 GO=/opt/veriftools/go1.26.8/bin/go
 V=/verif
+REPO=${VERIF_REPO:-/repo}
 CACHE=$V/.cache
 mkdir -p "$CACHE"
 # key: repo working tree (tracked+untracked Go-relevant files) + verif sources + toolchain
-KEY=$( (cd /repo && find . -path ./.git -prune -o -type f \( -name '*.go' -o -name 'go.mod' -o -name 'go.sum' -o -name 'p4info.txt' \) -print0 | sort -z | xargs -0 sha256sum; \
+KEY=$( (cd $REPO && find . -path ./.git -prune -o -type f \( -name '*.go' -o -name 'go.mod' -o -name 'go.sum' -o -name 'p4info.txt' \) -print0 | sort -z | xargs -0 sha256sum; \
         cd $V && find sim tools/vinstr -type f \( -name '*.go' -o -name 'go.mod' -o -name 'go.sum' \) ! -name '*_test.go' -print0 | sort -z | xargs -0 sha256sum; \
         $GO version) | sha256sum | cut -c1-24)
 OUT=$CACHE/$KEY
@@ -33,12 +34,12 @@ if [ ! -x $V/tools/vinstr/vinstr ] || [ $V/tools/vinstr/main.go -nt $V/tools/vin
 fi
 SC=$(mktemp -d /tmp/upfsim-build.XXXXXX)
 trap 'rm -rf "$SC"' EXIT
-rsync -a --exclude .git --exclude ptf --exclude docs --exclude deployments --exclude test --exclude '*_test.go' /repo/ $SC/ >&2 || exit 2
+rsync -a --exclude .git --exclude _mutants --exclude ptf --exclude docs --exclude deployments --exclude test --exclude '*_test.go' $REPO/ $SC/ >&2 || exit 2
 mkdir -p $SC/zzverif
 rsync -a --exclude go.mod --exclude go.sum --exclude '*_test.go' --exclude bridge $V/sim/ $SC/zzverif/ >&2 || exit 2
 cp $V/sim/bridge/pfcpiface_zz_verif_bridge.go $SC/pfcpiface/zz_verif_bridge.go || exit 2
 [ -f $V/sim/bridge/metrics_zz_verif_bridge.go ] && cp $V/sim/bridge/metrics_zz_verif_bridge.go $SC/pfcpiface/metrics/zz_verif_bridge.go
-cp /repo/conf/p4/bin/p4info.txt $SC/zzverif/vsimenv/p4info.txt 2>/dev/null
+cp $REPO/conf/p4/bin/p4info.txt $SC/zzverif/vsimenv/p4info.txt 2>/dev/null
 (cd $SC && $GO mod edit -require=github.com/anishathalye/porcupine@v1.3.0) >&2 || exit 2
 (cd $SC && $V/tools/vinstr/vinstr -root $SC -sites $SC/zzverif/vsim/sites_gen.go ./pfcpiface ./pfcpiface/metrics) >&2 || { echo "build.sh: instrumentation failed" >&2; exit 2; }
 mkdir -p $OUT
